@@ -362,9 +362,13 @@ def _recs(out):
 
 def _tags(inp, recs):
     runner = [i for i, w in enumerate(inp[3]) if w[0] == 2]
+    tgt = [i for i, w in enumerate(inp[3]) if w[0] == 1]
     tags = set()
     for r in recs:
         ags = r[1][0]
+        if r[0][0] == 0 and tgt and tgt[0] < len(ags):
+            if any(i < len(ags) and ags[i][3] == 1 and ags[i][1] == ags[tgt[0]][1] for i in runner):
+                tags.add("onstart")      # reset put an active runner on the target's cell
         for i in runner:
             if i < len(ags):
                 if ags[i][3] == 0 and ags[i][2] > 0:
